@@ -80,13 +80,14 @@ theorem composed_components (c : Cfg) (vc : Vmu.Cfg) (rc : C15.Cfg) (gs : GState
 
 /-- **Responses reach the compute unit in creation order, none missing, none twice**: the ids of the
     responses taken so far are `0, 1, …` — the creation indices of the transactions, because the
-    `k`-th request the ROB's Top port admits is transaction `k` (the port buffer of the unit is the
-    tail of its send history behind the admitted requests) — and every response names a transaction
-    that was created. -/
+    `k`-th request the ROB's Top port admits carries transaction `k` (`adm`; the port buffer of the
+    unit is the tail of its send history behind the admitted requests) — and every response names a
+    transaction that was created. -/
 theorem composed_responses_in_creation_order (c : Cfg) (vc : Vmu.Cfg) (rc : C15.Cfg) (gs : GState)
     (evs : List CEv) (hf : GFresh gs) (hs : sideOK c vc rc (CSys.init vc gs) evs = true) :
     let σ := crun c vc rc (CSys.init vc gs) evs
     σ.sys.out.map (·.rspTo) = List.range σ.sys.out.length ∧
+    σ.adm = List.range σ.sys.rob.nextTop ∧
     σ.vmu.sent = List.range σ.sys.rob.nextTop ++ σ.vmu.out ∧
     σ.sys.out.length ≤ σ.sys.rob.nextTop ∧ σ.sys.rob.nextTop ≤ σ.table.length ∧
     σ.table.length = σ.vmu.next := by
@@ -97,7 +98,7 @@ theorem composed_responses_in_creation_order (c : Cfg) (vc : Vmu.Cfg) (rc : C15.
   have := Vmu.vmu_prefix_range _ _ _ hi
   rw [List.length_map] at this
   have hb := h.bounds
-  exact ⟨this, h.port, by omega, hb.2, h.tlen⟩
+  exact ⟨this, h.adm, h.port, by omega, hb.2, h.tlen⟩
 
 /-- **waitcnt_sound / endpgm_waits about real accesses, composed**: at every point of an evaluation
     round started in any state of a composed run, an `s_waitcnt` that completes has at most `vmcnt` /
@@ -159,5 +160,82 @@ example : ∀ w ∈ (crun Cfg.cur Vmu.mi300a C15.demoCfg (CSys.init Vmu.mi300a d
     is rejected by it -/
 example : sideOK Cfg.cur Vmu.mi300a C15.demoCfg (CSys.init Vmu.mi300a demoG)
     [.flat 1 false 1 0, .other (.memRet 1 0 0 true)] = false := by decide +kernel
+
+/-! ## what the counters really need: the order inside an instruction -/
+
+theorem in_order_implies_last_last (c : Cfg) : ∀ (ops : List GOp) (gs : GState),
+    inOrderRun c gs ops = true → lastLastRun c gs ops = true
+  | [], _, _ => rfl
+  | o :: ops, gs, h => by
+    simp only [inOrderRun, Bool.and_eq_true] at h
+    simp only [lastLastRun, Bool.and_eq_true]
+    exact ⟨inOrder_lastLast gs o h.1, in_order_implies_last_last c ops _ h.2⟩
+
+/-- **waitcnt_tracks_truth under the weaker hypothesis `lastLastRun`**: for the counters to equal the
+    number of really outstanding instructions it is enough that, within every instruction, the
+    response of the last transaction arrives after the responses of its other transactions —
+    responses of DIFFERENT instructions may overtake each other (`waitcnt_tracks_truth` is the
+    special case: `in_order_implies_last_last`). This is exactly what the unit's
+    `vmu_last_transaction_sent_last` plus an order-preserving path provide. -/
+theorem waitcnt_tracks_truth_last_last (c : Cfg) (gs : GState) (ops : List GOp) (hf : GFresh gs)
+    (hok : respOKRun c gs ops = true) (hin : lastLastRun c gs ops = true) :
+    ∀ w ∈ (grun c gs ops).s.wfs,
+      w.ovc = (((grun c gs ops).g w.id).trueVM : Int) ∧ w.osc = (((grun c gs ops).g w.id).trueLGKM : Int) := by
+  intro w hw
+  obtain ⟨ht, ha⟩ := GFresh_inv hf
+  exact truth_of (grun_Tracked c ops gs ht hok) (grun_AllLast' c ops gs ha hok hin) hw
+
+/-- two one-transaction loads answered in the reverse order: not `inOrderRun`, but `lastLastRun`, and
+    the counter is right; the witness of `waitcnt_tracks_truth_unordered_refuted` violates `lastLast` -/
+example : inOrderRun Cfg.cur gone [.memIssue 0 true 0, .memIssue 0 true 0, .memRet 0 0 1 true] = false ∧
+    respOKRun Cfg.cur gone [.memIssue 0 true 0, .memIssue 0 true 0, .memRet 0 0 1 true] = true ∧
+    lastLastRun Cfg.cur gone [.memIssue 0 true 0, .memIssue 0 true 0, .memRet 0 0 1 true] = true ∧
+    (grun Cfg.cur gone [.memIssue 0 true 0, .memIssue 0 true 0, .memRet 0 0 1 true]).s.wfs.map (·.ovc) = [1] ∧
+    lastLastRun Cfg.cur gone [.memIssue 0 true 1, .memRet 0 0 0 true] = false := by decide
+
+/-! ## the unit's half is needed: the same machine around the unit before repair 1640e206 -/
+
+def isOther : CEv → Bool
+  | .other _ => true
+  | _ => false
+
+/-- the composed statement about the machine built around `C14.Vmu.Old.cycle` (no `other` events) -/
+def composed_truth_before_vmu_fix_full (vc : Vmu.Cfg) (rc : C15.Cfg) : Prop :=
+  ∀ (gs : GState) (evs : List CEv), GFresh gs → evs.all (fun e => !isOther e) = true →
+    ∀ w ∈ (crunOld Cfg.cur vc rc (CSys.init vc gs) evs).g.s.wfs,
+      w.ovc = (((crunOld Cfg.cur vc rc (CSys.init vc gs) evs).g.g w.id).trueVM : Int)
+
+/-- a ROB of four entries, two requests per cycle -/
+def rob4 : C15.Cfg :=
+  { cap := 4, width := 2, topInCap := 4, topOutCap := 4, botInCap := 4, botOutCap := 4, ctlInCap := 1,
+    ctlOutCap := 1, bottomUnit := true }
+
+/-- one FLAT load of four transactions through a unit of two lanes under back-pressure (the witness
+    of `vmu_fifo_before_fix_two_lanes_refuted`), an in-order memory behind the ROB -/
+def oldWitness : List CEv :=
+  [.flat 1 false 3 0, .vcyc, .vcyc, .vcyc, .vcyc, .conn (C15.demoReq 0 false), .vcyc, .conn (C15.demoReq 0 false),
+   .vcyc, .conn (C15.demoReq 0 false), .vcyc, .conn (C15.demoReq 0 false), .vcyc,
+   .robTick, .robTick, .memTake, .memTake, .memTake, .memTake,
+   .memAnswer 0 (.data [0]), .memAnswer 0 (.data [0]), .memAnswer 0 (.data [0]), .memAnswer 0 (.data [0]),
+   .robTick, .robTick, .robTick, .ret, .ret, .ret]
+
+/-- **The repair of the unit is needed for the composed theorem.** Around the unit before the repair
+    (two lanes) the ROB faithfully returns the responses in the order the requests REACHED it —
+    0, 2, 3, 1 —: the third response is that of the last-flagged transaction 3, the counter of the
+    wavefront drops to 0 while transaction 1 is unanswered (`s_waitcnt vmcnt(0)` would complete). -/
+theorem composed_before_vmu_fix_refuted : ¬ composed_truth_before_vmu_fix_full ⟨2, 1, 1, 1, 16⟩ rob4 := by
+  intro h
+  have := h demoG oldWitness demoG_fresh (by decide)
+  revert this
+  decide +kernel
+
+example : (crunOld Cfg.cur ⟨2, 1, 1, 1, 16⟩ rob4 (CSys.init ⟨2, 1, 1, 1, 16⟩ demoG) oldWitness).adm = [0, 2, 3, 1] ∧
+    (crunOld Cfg.cur ⟨2, 1, 1, 1, 16⟩ rob4 (CSys.init ⟨2, 1, 1, 1, 16⟩ demoG) oldWitness).sys.out.map (·.rspTo) = [0, 1, 2] ∧
+    ((crunOld Cfg.cur ⟨2, 1, 1, 1, 16⟩ rob4 (CSys.init ⟨2, 1, 1, 1, 16⟩ demoG) oldWitness).g.g 1).trueVM = 1 ∧
+    -- the same events around the repaired unit: three of the four transactions admitted, in order
+    (crun Cfg.cur ⟨2, 1, 1, 1, 16⟩ rob4 (CSys.init ⟨2, 1, 1, 1, 16⟩ demoG) oldWitness).adm = [0, 1, 2] ∧
+    (crun Cfg.cur ⟨2, 1, 1, 1, 16⟩ rob4 (CSys.init ⟨2, 1, 1, 1, 16⟩ demoG) oldWitness).g.s.wfs.map (fun w => (w.id, w.ovc)) =
+      [(0, 0), (1, 1), (2, 0), (3, 0), (4, 0)] := by
+  decide +kernel
 
 end C14.Chain
